@@ -76,6 +76,93 @@ def fake_eigh(evl, evc):
         np.linalg.eigh = orig
 
 
+def bloch_tie(ctx, rng):
+    """choi_op_to_bloch_map against the exact rational model value (scalars = the binary64 square roots taken exactly,
+    everything else exact): the only inexact side is the implementation; tolerance 1e-12 relative to the largest entry"""
+    import numqi
+    from fractions import Fraction
+    ch = numqi.channel
+    ops, vals = [], []
+    dims = [(a, b) for a in range(1, 5) for b in range(1, 5)]
+    if ctx.quick():
+        dims = [dims[i] for i in rng.permutation(len(dims))[:8]]
+    for din, dout in dims:
+        for herm in (True, False):
+            if herm:
+                K = rg(rng, (int(rng.integers(1, 4)), dout, din), 2, True)
+                C = ch.kraus_op_to_choi_op(K)
+            else:
+                C = rg(rng, (din * dout, din * dout), 4, True)
+            ops.append(f'C12 bloch {din} {dout} {gl(C)}')
+            try:
+                A, b = ch.choi_op_to_bloch_map(C.reshape(din, dout, din, dout))
+                vals.append((np.asarray(A), np.asarray(b)))
+            except Exception as e:
+                vals.append('error:' + type(e).__name__)
+    model = common.run_model(ops)
+    worst = 0.0
+    for op, got, mo in zip(ops, vals, model):
+        ctx.count('bloch')
+        if isinstance(got, str) or '|' not in mo:
+            ctx.disagree(op, mo[:200], str(got)[:200]); continue
+        pa, pb = mo.split('|')
+        ex = lambda txt: np.array([float(Fraction(e.split(',')[0])) for e in txt.split(';')]) if txt else np.zeros(0)
+        eim = lambda txt: max([abs(Fraction(e.split(',')[1])) for e in txt.split(';')], default=0) if txt else 0
+        EA, Eb = ex(pa), ex(pb)
+        A, b = got
+        if EA.size != A.size or Eb.size != b.size or eim(pa) != 0 or eim(pb) != 0:
+            ctx.disagree(op, f'sizes {EA.size},{Eb.size}', f'sizes {A.size},{b.size}'); continue
+        scale = max(1.0, float(np.max(np.abs(EA))) if EA.size else 1.0, float(np.max(np.abs(Eb))) if Eb.size else 1.0)
+        err = max(float(np.max(np.abs(A.reshape(-1) - EA))) if EA.size else 0.0, float(np.max(np.abs(b.reshape(-1) - Eb))) if Eb.size else 0.0) / scale
+        worst = max(worst, err)
+        if err <= 1e-12 and not np.iscomplexobj(A) and not np.iscomplexobj(b):
+            ctx.agree(op, op)
+        else:
+            ctx.disagree(op, mo[:160], f'max rel diff {err:.3e}')
+    ctx.extra['bloch_worst_rel_err'] = worst
+    ctx.assumptions.append('Bloch-map tie: tolerance 1e-12 relative (entries are sums of at most 16 products of integers <= 40 with binary64 square roots; '
+                           'a few dozen roundings of 1.1e-16 each); worst observed recorded as bloch_worst_rel_err')
+
+
+def spectral_tie(ctx, rng):
+    """get_von_neumann_entropy / get_fidelity / get_relative_entropy on commuting (diagonal) states against the spectral
+    model executed in binary64 (same formula, libm log): tolerance 1e-12"""
+    import numqi, torch
+    U = numqi.utils
+    eps = float(np.finfo(np.float64).eps)
+    unbits = lambda s: struct.unpack('<d', struct.pack('<Q', int(s)))[0]
+    fl = lambda v: ';'.join(str(bits(x)) for x in v)
+    ops, vals = [], []
+    for rep in range(10 if ctx.quick() else 100):
+        d = int(rng.integers(1, 6))
+        p = rng.uniform(0.05, 1, size=d); p /= p.sum()
+        q = rng.uniform(0.05, 1, size=d); q /= q.sum()
+        if rep % 3 == 0 and d >= 2:
+            p[0] = 0.0; p /= p.sum()                # rank-deficient first argument
+        ps = np.sort(p)
+        ops.append(f'C12 spec ent {bits(eps)} {fl(ps)}'); vals.append([U.get_von_neumann_entropy(np.diag(p)), float(U.get_von_neumann_entropy(torch.tensor(np.diag(p)))),
+                                                                      U.get_von_neumann_entropy(np.diag(p).astype(np.complex128))])
+        ops.append(f'C12 spec fid {fl(p)} {fl(q)}'); vals.append([U.get_fidelity(np.diag(p), np.diag(q)), float(U.get_fidelity(torch.tensor(np.diag(p)), torch.tensor(np.diag(q))))])
+        ops.append(f'C12 spec rel {bits(eps)} {fl(p)} {fl(q)}'); vals.append([U.get_relative_entropy(np.diag(p), np.diag(q)), float(U.get_relative_entropy(torch.tensor(np.diag(p)), torch.tensor(np.diag(q))))])
+    model = common.run_model(ops)
+    worst = 0.0
+    for op, got, mo in zip(ops, vals, model):
+        ctx.count('spectral-' + op.split(' ')[2])
+        try:
+            ex = unbits(mo)
+        except Exception:
+            ctx.disagree(op, mo, str(got)); continue
+        err = max(abs(float(g) - ex) for g in got) / max(1.0, abs(ex))
+        worst = max(worst, err)
+        if err <= 1e-12:
+            ctx.agree(op, op)
+        else:
+            ctx.disagree(op, repr(ex), repr([float(g) for g in got]))
+    ctx.extra['spectral_worst_rel_err'] = worst
+    ctx.assumptions.append('spectral tie (diagonal states): tolerance 1e-12; both sides evaluate the same binary64 formula, differences come from the summation order '
+                           'and from sqrt of products; the eigen-decomposition of a diagonal matrix is exact')
+
+
 def correspondence(ctx):
     import numqi, torch
     ch = numqi.channel
@@ -145,6 +232,8 @@ def correspondence(ctx):
             return int(t[2]) * int(t[3]) > 1
         return True
     common.compare(ctx, ops, impl, model, nontrivial=nontrivial)
+    bloch_tie(ctx, rng)
+    spectral_tie(ctx, rng)
     ctx.extra['exhaustive'] = False
     ctx.extra['exhaustive_domain'] = 'every (dim_in, dim_out) in 1..5 x 1..5 (not exhaustive in the entries)'
 
